@@ -4,6 +4,7 @@ from ..rateprobe import run_case, reference, updated, common_buckets, exc_detail
 
 PROPERTY = "C02"
 PYTEST_PREFIX = "C02/"
+TECHNIQUE = "runtime monitoring: contract/frame monitor with pre-call snapshots (shape, identity, input consistency) + reference placement matching"
 LEVEL = "exploration"
 RULE = ("Games whose players all carry unique names (values distinct in most regimes; a quarter of the games use teams "
         "with IDENTICAL values, where only identity can tell players apart); every real rate() return is checked against "
